@@ -221,6 +221,14 @@ Proof.
     destruct (Z.eqb_spec k0 k); [lia|reflexivity].
 Qed.
 
+Lemma ssorted_in_lookup l k v : ssorted l -> In (k, v) l -> sl_lookup k l = Some v.
+Proof.
+  induction l as [|[k' v'] l IH]; [contradiction|]. intros [G S] [Heq|Hin]; cbn [sl_lookup].
+  - injection Heq as -> ->. rewrite Z.eqb_refl. reflexivity.
+  - cbn [fst] in G. unfold keys_gt in G. rewrite Forall_forall in G. pose proof (G _ Hin) as Hg.
+    cbn in Hg. destruct (Z.eqb_spec k k'); [lia|]. apply IH; assumption.
+Qed.
+
 (* ------------------------------------------------------------------ successor / predecessor of the tree *)
 Lemma hd_map {A B} (f : A -> B) l : hd_error (map f l) = option_map f (hd_error l).
 Proof. destruct l; reflexivity. Qed.
